@@ -3,6 +3,7 @@
    the refutations and the non-vacuity examples). *)
 From Coq Require Import List NArith ZArith Bool Sorted Permutation.
 From KV Require Import Model.Routing Proofs.RoutingProofs Proofs.RoutingSort.
+From KV Require Model.RoutingSkeleton Gen.Skeleton Proofs.SkeletonRouting.
 Import ListNotations.
 Open Scope Z_scope.
 
@@ -184,6 +185,33 @@ Example C12_coordinator_key_type_example :
   /\ send_request empty_cluster conns (keyed_request 22 [120%N]) coord = Sent [WFind 1 [120%N]; WReq (TBroker 2) 22].
 Proof. vm_compute. split; reflexivity. Qed.
 
+(* ---- split requests to coordinators (protocol.Splitter + GroupMessage): describe-groups ----
+   A part of a split request is routed by ONE key (Group() = its first group), so the split is
+   only right when every part is homogeneous: every group it names has the coordinator the
+   part is sent to.  DescribeGroups.Split makes singleton parts, each requested group exactly
+   once and in order; so every part is routed by EVERY group it names, for every coordinator
+   assignment, and the round trip is one coordinator exchange per requested group. *)
+Theorem C12_split_describegroups : forall gs,
+  concat (split_describegroups gs) = gs
+  /\ (forall part, In part (split_describegroups gs) -> exists g, part = [g] /\ In g gs)
+  /\ (forall part g, In part (split_describegroups gs) -> In g part ->
+        describegroups_request part = Some (RGroup K_DescribeGroups g))
+  /\ (forall coord part, In part (split_describegroups gs) -> part_homogeneous coord part).
+Proof.
+  intro gs. split; [exact (split_describegroups_concat gs)|].
+  split; [exact (split_describegroups_singletons gs)|].
+  split; [exact (split_describegroups_routed_by_every_group gs)|].
+  intros coord part. exact (split_describegroups_homogeneous coord gs part).
+Qed.
+Print Assumptions C12_split_describegroups.
+
+Theorem C12_route_describegroups : forall p gs fc,
+  ps_ready p = true ->
+  round_trip p (QDescribeGroups gs) fc =
+  RTSend (map (fun g => via_coordinator (ps_conns p) fc KT_Group g K_DescribeGroups) gs).
+Proof. exact round_trip_describegroups. Qed.
+Print Assumptions C12_route_describegroups.
+
 (* which API keys take the coordinator route: every request the Kafka protocol addresses to the
    group coordinator (Heartbeat included) is a GroupMessage, every one addressed to the
    transaction coordinator is a TransactionalMessage *)
@@ -303,6 +331,40 @@ Theorem C12_refresh_survives_failures : forall (fs : list (bool * refresh_result
              /\ d_phase s' = DWaiting /\ d_ctx_err s' = None /\ view_of m (d_pool s').
 Proof. exact discover_survives_failures. Qed.
 Print Assumptions C12_refresh_survives_failures.
+
+(* ---- the pool's reference count: what keeps the refresh loop running ----
+   discover stops only when the pool's context is cancelled (C12_refresh_stops_only_when_closed);
+   the context is cancelled by the unref that brings p.refc to 0.  Over every history of
+   grabPool (found under the read lock / found by the re-check under the write lock / created),
+   RoundTrip returns and CloseIdleConnections: the count covers the RoundTrips in progress plus
+   the registry, so the context is not cancelled while the pool is registered or in use. *)
+Theorem C12_pool_refs_cover_users : forall ls s,
+  rp_run rpool_init ls = Some s ->
+  rp_users s + (if rp_registered s then 1 else 0) <= rp_refs s \/ rp_created s = false.
+Proof. exact pool_refs_cover_users. Qed.
+Print Assumptions C12_pool_refs_cover_users.
+
+Theorem C12_pool_alive_while_registered_or_used : forall ls s,
+  rp_run rpool_init ls = Some s ->
+  (rp_registered s = true \/ 0 < rp_users s) -> rp_cancelled s = false.
+Proof. exact pool_alive_while_registered_or_used. Qed.
+Print Assumptions C12_pool_alive_while_registered_or_used.
+
+(* T13: the three grabPool steps of the model do take their reference in /repo's CURRENT source:
+   every return statement of Transport.grabPool is preceded by p.ref() or constructs the pool
+   (call facts of harness/cmd/vskel, regenerated on every run; Model/RoutingSkeleton.v) *)
+Theorem C12_pool_reference_skeleton :
+  KV.Model.RoutingSkeleton.pool_reference_assumption_holds KV.Gen.Skeleton.calls = true.
+Proof. exact KV.Proofs.SkeletonRouting.pool_reference_skeleton_ok. Qed.
+Print Assumptions C12_pool_reference_skeleton.
+
+(* eight goroutines make the first use together (one creates, seven lose the race and find the
+   pool by the re-check), all return: the pool is still registered and alive *)
+Example C12_first_use_example :
+  option_map (fun s => (rp_refs s, rp_users s, rp_registered s, rp_cancelled s))
+             (rp_run rpool_init (RGrab GCreate :: repeat (RGrab GRecheck) 7 ++ repeat RDone 8))
+  = Some (1, 0, true, false).
+Proof. vm_compute. reflexivity. Qed.
 
 Theorem C12_create_topics_forces_refresh : forall tr,
   forces_refresh (QOne (RController K_CreateTopics)) (RTSend [Sent tr]) = true.
